@@ -229,6 +229,8 @@ def run_job(job, ctx):
         job = dict(single["jobparams_full"]); job["only"] = single["only"]
     if job["kind"] == "inject":
         _inject(job, ctx)
+    elif job.get("only") and job["only"][0] == "history":
+        _histories(job, ctx, build())
     else:
         _natural(job, ctx)
 
@@ -335,6 +337,57 @@ def _norm(d):
     return out
 
 
+def _plainish(d):
+    """asdict made only of plain data with string keys, i.e. inside every format's domain (equality after a reload is only demanded there)"""
+    from mc.ref.fields import is_plain_data
+    return is_plain_data(d)
+
+
+def _histories(job, ctx, schema):
+    """every sequence (<= 4 steps) over {A saves, B saves, the file is deleted, A changes} on one destination:
+    after each save the destination holds exactly what that call serialised"""
+    import itertools
+    import cincoconfig as cc
+    tmp = ctx.tmp
+    only = job.get("only")
+    steps = ["save-a", "save-b", "delete", "change-a", "save-a-other-format"]
+    for fmt in FORMATS:
+        for n in (2, 3, 4):
+            for seq in itertools.product(steps, repeat=n):
+                if "save-a" not in seq and "save-a-other-format" not in seq:
+                    continue
+                if only is not None and only != ["history", fmt, list(seq)]:
+                    continue
+                a = make_cfg(schema, "scalars", tmp)
+                b = make_cfg(schema, "containers", tmp)
+                dest = os.path.join(tmp, "hist.cfg")
+                if os.path.exists(dest):
+                    os.unlink(dest)
+                ok = True
+                for i, st in enumerate(seq):
+                    if st == "delete":
+                        if os.path.exists(dest):
+                            os.unlink(dest)
+                        continue
+                    if st == "change-a":
+                        a.i = (a.i or 0) + 1
+                        continue
+                    who = b if st == "save-b" else a
+                    f = fmt if st != "save-a-other-format" else ("json" if fmt != "json" else "yaml")
+                    raised, log, names, captured = attempt_save(who, dest, f)
+                    ctx.transitions += 1
+                    got = file_id(dest)
+                    if raised is not None or got is None or got[0] != captured:
+                        ok = False
+                        ctx.violation("C19|history|%s|%s" % (fmt, "raised" if raised else "stale-or-missing-file"),
+                                      "sequence %s on one destination: after step %d (%s) the file %s" % (list(seq), i, st,
+                                      "save raised %r" % (raised,) if raised else "does not hold the bytes serialised by that call"),
+                                      _case(job, ["history", fmt, list(seq)]), size=n)
+                        break
+                ctx.case(("history", fmt, seq), "history:%d:%s" % (n, "ok" if ok else "bad"), True)
+    ctx.traces += 1
+
+
 def _safe_dumps(cfg, fmt):
     try:
         return cfg.dumps(fmt)
@@ -416,6 +469,15 @@ def _natural(job, ctx):
                     written = file_id(dest)
                     if written is None or written[0] != captured:
                         bad("written-differs-from-serialised", "the destination does not hold the bytes the formatter returned")
+                    # a save that returned must have produced a file that loads back into an equal configuration
+                    fresh = cc.Config(schema, key_filename=key)
+                    try:
+                        fresh.load(dest, usefmt)
+                        if V.plain(_norm(cc.asdict(fresh))) != V.plain(_norm(cc.asdict(cfg))) and _plainish(cc.asdict(cfg)):
+                            bad("load-back-differs", "the save returned but the file loads back differently")
+                    except Exception as exc:  # noqa
+                        bad("saved-file-does-not-load", "the save returned normally but the file it wrote cannot be loaded: %r" % (exc,))
+    _histories(job, ctx, schema)
     ctx.states += len(NATURAL)
     ctx.traces += 1
     ctx.sample({"natural_faults": [n[0] for n in NATURAL]})
